@@ -406,7 +406,7 @@ func cmdCheck(args []string) {
 			continue
 		}
 		if k, ok := isKnown(v.Classes); ok {
-			knownLines = append(knownLines, fmt.Sprintf("KNOWN-FINDING: property=%s %s [%s at %s, e.g.%s]", *prop, k.Text, v.ID, v.Pos, drawStr(v.Draws)))
+			knownLines = append(knownLines, fmt.Sprintf("KNOWN-FINDING: %s [%s at %s, e.g.%s]", k.Text, v.ID, v.Pos, drawStr(v.Draws)))
 			continue
 		}
 		violations++
